@@ -656,6 +656,10 @@ func (r *Run) probeCred(c *Cred, when string) {
 		return
 	}
 	if c.Kind == "rt" && r.W.K.DisableRTValidation {
+		// refresh-token introspection is disabled: a refresh token is never reported active, whatever the hint
+		if active, _ := r.introspectCred(c); active {
+			r.violate("C09", "refresh-token-active-although-introspection-disabled", "probe", "%s is reported active %s although refresh-token validation is disabled", c.Name(), when)
+		}
 		return
 	}
 	exp, why := r.L.Expect(c, r.now())
